@@ -7,8 +7,8 @@ far beyond the simulated duration of a run, so no expiry can be demanded by slow
 from __future__ import annotations
 
 from cfdpsim.runner import from_world
-from cfdpsim.world import ACK, Cfg, World
-from props.monitors import standard_monitors
+from cfdpsim.world import World
+from props import pops
 
 RULE = (
     "one put request per run, configuration and pacing drawn from the tape (mode x closure x checksum x CRC x "
@@ -25,31 +25,16 @@ ASSUMPTIONS = [
 ]
 BUDGET = {"quick": 25, "thorough": 600}
 
-BIG = 100000.0
-FORCE = {
-    "shell": "plain", "ack_s": BIG, "nak_s": BIG, "check_s_send": BIG, "check_s_recv": BIG,
-}
 
 
 def run_one(t):
-    cfg = Cfg.draw(t, FORCE)
-    w = World(t, cfg)
+    ctx = pops.faultfree(t)
+    w = ctx.w
     try:
-        w.pacing = "random" if t.choose(4, "pacing") != 3 else "regular"
-        w.monitors.extend(standard_monitors(w, strict_order=True))
-        w.max_events = 4000 + 8 * (cfg.size // max(cfg.eff_seg, 1))
-        w.max_t = 10_000_000
-        rec = w.call(w.a, "src", "put", arg=w.put_request_obj())
-        if rec.ret is not True or rec.exc is not None:
-            w.violate("C02.put_accepted", f"ret={rec.ret} exc={rec.exc!r}", "")
-        w.start_polls()
-        reason = w.run()
-        judge(w, reason)
-        for m in w.monitors:
-            m.on_end(w)
-        paces = {x for x in t.rec[35:]} if w.pacing == "random" else set()
-        nontrivial = w.pacing == "random" and len(paces) >= 2
-        return from_world(w, "faultfree", nontrivial)
+        if ctx.put_rec.ret is not True or ctx.put_rec.exc is not None:
+            w.violate("C02.put_accepted", f"ret={ctx.put_rec.ret} exc={ctx.put_rec.exc!r}", "")
+        judge(w, ctx.reason)
+        return from_world(w, ctx.pop, ctx.nontrivial)
     finally:
         w.close()
 
